@@ -28,6 +28,9 @@ pub enum GK {
     /// link to a bystander file outside the source (by/keep)
     LinkOut,
     LinkDangling,
+    /// special files inside trees (never opened by anybody)
+    Fifo,
+    Sock,
 }
 
 #[derive(Clone, Debug, Serialize, Deserialize)]
@@ -52,6 +55,7 @@ pub fn gent(max_name: usize, links: bool) -> BoxedStrategy<GEnt> {
             1 => any::<u16>().prop_map(GK::LinkAbs),
             1 => Just(GK::LinkOut),
             1 => Just(GK::LinkDangling),
+            1 => prop_oneof![Just(GK::Fifo), Just(GK::Sock)],
         ]
         .boxed()
     } else {
@@ -117,6 +121,8 @@ pub fn build_tree(top: &[u8], gents: &[GEnt], root_abs: &[u8], max_depth: usize)
             GK::File(l, s) => {
                 ents.push(Ent::file(&path, Content::data(*l as u64, *s)).with_mode(g.mode as u32).with_mtime(mt.0, mt.1));
             }
+            GK::Fifo => ents.push(Ent::new(&path, Kind::Fifo).with_mode(0o644)),
+            GK::Sock => ents.push(Ent::new(&path, Kind::Sock).with_mode(0o644)),
             k => {
                 ents.push(Ent::link(&path, b"?"));
                 pending_links.push((ents.len() - 1, k.clone()));
